@@ -16,6 +16,7 @@ from . import _nsutil as nu
 ID = "C09"
 TITLE = "Versioned references resolve to exactly the named definition or fail cleanly"
 RULE = (
+    "(Workspaces also hold versions whose digits read alike when run together - 1.10 / 11.0 - and names that differ by letter case only, with different versions; fault missing-qualified-namesake: a dotted name that exists only relative to the referrer's namespace.)  "
     "Cases are dependency graphs on disk (<= 8 definitions in 1..3 root namespaces, several versions of one name, nested namespaces, "
     "relative and absolute spellings, references through arrays, cross-root edges, diamonds and chains; acyclic by construction) read with "
     "read_namespace per root and read_files over drawn target subsets and orders, twice in one process; plus injected faults (reference to "
